@@ -297,6 +297,23 @@ func singleInputNodes() []nodeSpec {
 				}
 				return out
 			}},
+		{name: "lookup_join(changelog right, on l.col0=r.col0)", retractionsOK: true,
+			build: func(src execution.Node) execution.Node {
+				// joined side: a changelog, as a counting-triggered subquery produces it: every matching row is preceded
+				// by a provisional row that is retracted again (+tmp, -tmp, +row)
+				return nodes.NewLookupJoin(src, &flickerSrc{rows: lookupRight})
+			},
+			batch: func(rows []crow) stream.Bag {
+				out := stream.Bag{}
+				for _, r := range rows {
+					for _, rr := range lookupRight {
+						if r.vals[0].TypeID != octosql.TypeIDNull && rr[0].TypeID != octosql.TypeIDNull && r.vals[0].Int == rr[0].Int {
+							out.Add(stream.ValsKey(append(append([]octosql.Value{}, r.vals...), rr...)), r.n)
+						}
+					}
+				}
+				return out
+			}},
 		{name: "unnest(col1)", retractionsOK: true, listInput: true,
 			build: func(src execution.Node) execution.Node { return nodes.NewUnnest(src, 1) },
 			batch: func(rows []crow) stream.Bag {
@@ -319,6 +336,26 @@ func (s *staticSrc) Run(ctx execution.ExecutionContext, produce execution.Produc
 	for _, row := range s.rows {
 		if err := produce(execution.ProduceFromExecutionContext(ctx), execution.NewRecord(row, false, stream.T(0))); err != nil {
 			return err
+		}
+	}
+	return nil
+}
+
+// flickerSrc: the joined side of a lookup join as a changelog. For the source record in scope it emits, per matching
+// row, a provisional row, its retraction and then the row itself.
+type flickerSrc struct{ rows [][]octosql.Value }
+
+func (s *flickerSrc) Run(ctx execution.ExecutionContext, produce execution.ProduceFn, metaSend execution.MetaSendFn) error {
+	l := ctx.VariableContext.Values[0]
+	for _, row := range s.rows {
+		if l.TypeID == octosql.TypeIDNull || row[0].TypeID == octosql.TypeIDNull || l.Int != row[0].Int {
+			continue
+		}
+		tmp := []octosql.Value{row[0], octosql.NewString("provisional")}
+		for _, rec := range []execution.Record{execution.NewRecord(tmp, false, stream.T(0)), execution.NewRecord(tmp, true, stream.T(0)), execution.NewRecord(row, false, stream.T(0))} {
+			if err := produce(execution.ProduceFromExecutionContext(ctx), rec); err != nil {
+				return err
+			}
 		}
 	}
 	return nil
